@@ -21,7 +21,10 @@ Ev == Tr[l]
 Is(e) == l <= Len(Tr) /\ Tr[l].ev = e /\ l' = l + 1
 Check(name, c) == c \/ (PrintT(<<"REJECT", tid, l, name>>) /\ FALSE)
 All(t) == \A i \in DOMAIN t : t[i]
-Verdict == IF tid > 0 /\ status = "ok" THEN PrintT(<<"ACCEPT", tid>>) ELSE TRUE
+\* a trace is complete when the run came to its end: output files read back, refused at start-up, or crashed
+Verdict == IF tid = 0 THEN TRUE
+           ELSE IF pc # "done" THEN PrintT(<<"REJECT", tid, l, "trace.incomplete">>)
+           ELSE IF status = "ok" THEN PrintT(<<"ACCEPT", tid>>) ELSE TRUE
 Mark(ok) == status' = IF ok THEN status ELSE "rej"
 Get(s, i) == IF i >= 1 /\ i <= Len(s) THEN s[i] ELSE NEG
 Min(a, b) == IF a < b THEN a ELSE b
@@ -36,6 +39,8 @@ Pids(P) == { P[i].pid : i \in 1..Len(P) }
 AliveTemps(s) == LET idx == SelectSeq([i \in 1..Len(s.pid) |-> i], LAMBDA i : Get(s.alive, i) = TRUE)
                  IN [k \in 1..Len(idx) |-> Get(s.temp, idx[k])]
 \* identity invariants evaluated on every state snapshot (C05) and "the dead stay dead" (C09)
+\* between two releases the number of identifiers handed out does not change
+NpidInv(s) == <<Check("inv.npid_only_grows_at_release", s.npid = npid)>>
 SnapInv(s) == <<Check("inv.arrays_equally_long", \A i \in 1..Len(s.lens) : s.lens[i] = Len(s.pid)),
                 Check("inv.pids_increasing", \A i \in 1..(Len(s.pid) - 1) : s.pid[i] < s.pid[i + 1]),
                 Check("inv.pid_ge_index", \A i \in 1..Len(s.pid) : s.pid[i] >= i - 1),
@@ -159,14 +164,14 @@ Force == /\ Is("force")
                        Check("force.step", Ev.step = step),
                        Check("force.sees_all_particles", AliveParts(Ev.snap) = parts),
                        Check("force.len", Len(Ev.u) = n /\ Len(Ev.v) = n),
-                       Check("force.at_current_positions", Len(Ev.u0) = n /\ Ev.u = Ev.u0 /\ Ev.v = Ev.v0)>> \o SnapInv(Ev.snap)))
+                       Check("force.at_current_positions", Len(Ev.u0) = n /\ Ev.u = Ev.u0 /\ Ev.v = Ev.v0)>> \o SnapInv(Ev.snap) \o NpidInv(Ev.snap)))
          /\ pc' = IF catch THEN "move" ELSE "output"
          /\ UNCHANGED <<tid, S, step, parts, npid, born, vels, hist, closed, dead, catch>>
 
 Output == /\ Is("output")
           /\ Mark(All(<<Check("output.pc", pc = "output"),
                         Check("output.step", Ev.step = step),
-                        Check("output.snap", AliveParts(Ev.snap) = parts)>> \o SnapInv(Ev.snap)))
+                        Check("output.snap", AliveParts(Ev.snap) = parts)>> \o SnapInv(Ev.snap) \o NpidInv(Ev.snap)))
           /\ hist' = IF Due THEN Append(hist, [step |-> step, recs |-> parts, npid |-> npid, temp |-> AliveTemps(Ev.snap)]) ELSE hist
           /\ pc' = "move"
           /\ UNCHANGED <<tid, S, step, parts, npid, born, vels, closed, dead, catch>>
@@ -187,6 +192,7 @@ MoveBody(idx) ==
           A == { i \in 1..n : Get(pre.alive, i) = TRUE }
           oc == [i \in A |-> IF shape /\ okst THEN Outcome(Part(pre, i), uv(i), Part(post, i)) ELSE "none"]
       IN /\ Mark(All(<<Check("move.pc", pc = "move"),
+                       Check("move.step", Ev.step = step),
                        Check("move.pre", AliveParts(pre) = parts),
                        Check("move.shape", shape),
                        Check("move.stages", okst),
@@ -199,7 +205,7 @@ MoveBody(idx) ==
                                 /\ post.x[i] # NEG /\ post.y[i] # NEG /\ post.z[i] # NEG
                                 /\ ~OutGridSure(post.x[i], post.y[i]) /\ MaybeSea(post.x[i], post.y[i])),
                        Check("move.no_resurrection", shape => \A i \in 1..n : (Get(post.alive, i) = TRUE) => (Get(pre.alive, i) = TRUE))>>
-                     \o SnapInv(post)))
+                     \o SnapInv(post) \o NpidInv(post) \o NpidInv(pre)))
          /\ parts' = AliveParts(post)
          /\ dead' = dead \cup (Pids(parts) \ Pids(AliveParts(post)))
          /\ IF okst /\ shape /\ Stages > 0
@@ -224,7 +230,7 @@ Ibm == /\ Is("ibm")
                            Check("ibm.step", Ev.step = step),
                            Check("ibm.module_given_by_path_runs", Ev.token = S.token),
                            Check("ibm.sees_moved_state", pre = parts),
-                           Check("ibm.once_per_step", post = exp)>> \o SnapInv(Ev.post)))
+                           Check("ibm.once_per_step", post = exp)>> \o SnapInv(Ev.post) \o NpidInv(Ev.post) \o NpidInv(Ev.pre)))
              /\ parts' = post
              /\ dead' = dead \cup (Pids(parts) \ Pids(post))
        /\ pc' = "timer" /\ catch' = FALSE
@@ -277,6 +283,7 @@ PvarsOK(fs) == \A k \in 1..Len(fs) :
    LET last == LastRecOf(fs, k)
        np == IF last >= 1 /\ last <= Len(hist) THEN hist[last].npid ELSE 0
    IN /\ Len(fs[k].pv_release_time) >= np /\ Len(fs[k].pv_src) >= np
+      /\ fs[k].npart = np                                   \* the particle dimension holds exactly the particles released so far
       /\ \A p \in 1..np : fs[k].pv_release_time[p] = born[p].rt /\ fs[k].pv_src[p] = born[p].src
 PidSetOf(r) == { r.pid[i] : i \in 1..Len(r.pid) }
 FilesBody(fs, all) ==           \* `all` (the records of all files in order) is bound by a singleton quantifier in Files: evaluated once
@@ -311,8 +318,8 @@ Files ==
 Predicted == /\ Is("predicted")
              /\ Mark(Check("model.records_as_predicted", Ev.got = Ev.want))
              /\ UNCHANGED <<tid, S, pc, step, parts, npid, born, vels, hist, closed, dead, catch>>
-Crash == /\ Is("crash") /\ Mark(Check("run.crashed", FALSE))
-         /\ UNCHANGED <<tid, S, pc, step, parts, npid, born, vels, hist, closed, dead, catch>>
+Crash == /\ Is("crash") /\ Mark(Check("run.crashed", FALSE)) /\ pc' = "done"
+         /\ UNCHANGED <<tid, S, step, parts, npid, born, vels, hist, closed, dead, catch>>
 
 \* the run stopped with an error exit before the first step (start-up refusal, C20)
 Refused == /\ Is("refused")
